@@ -75,3 +75,34 @@ extern "C" void c05_store()
   }
   if (thrown) verif_assert(same(b, VX_DK, dnull, di, dc, dl) && sb == type_of(VX_DK), "C05: a refused assignment leaves the destination unchanged");
 }
+
+// LETStatement::doit through a forall iterator (the variable holds a pointer to a table element): the element receives a
+// copy of the value, stays owned by the table (lvalue flag set, so later consumers clone instead of moving it out), and an
+// lvalue source is untouched.
+#include <blocc/statement_let.h>
+#include <blocc/expression_variable.h>
+extern "C" void c05_let_through_iterator()
+{
+  static Context ctx(1, 2);
+  ctx._storage_pool.reserve(2);
+  Symbol& it = ctx.registerSymbol("E", type_of(VX_SK));
+  bool snull = in_bool(0), enull = in_bool(1), slval = in_bool(2), locked = in_bool(3);
+  long si = in_long(0), ei = in_long(1); unsigned char sc = in_uchar(0), ec = in_uchar(1); int sl = in_int(0), el = in_int(1);
+  verif_assume(sl >= 0 && sl <= 1 && el >= 0 && el <= 1);
+  static Value elem; elem.swap(mkv(VX_SK, enull, ei, ec, el).to_lvalue(true));        /* the table element */
+  ctx._storage_pool[0].value.swap(Value(&elem).to_lvalue(true));                      /* iterator = pointer to the element */
+  it.safety(true); it.locked(locked);
+  static Value src; src.swap(mkv(VX_SK, snull, si, sc, sl)); src.to_lvalue(slval);
+  SymExpr* e = new SymExpr(&src);
+  LETStatement let(VariableExpression(it), e);
+  bool thrown = false;
+  try { let.doit(ctx); } catch (RuntimeError&) { thrown = true; } catch (...) { verif_assert(false, "C01: only RuntimeError may leave an assignment"); return; }
+  VX_WITNESS();
+  if (locked) { verif_assert(thrown && same(elem, VX_SK, enull, ei, ec, el), "C09: a read-only iterator (constant table) refuses assignment and the element is unchanged"); return; }
+  verif_assert(!thrown, "C06: an assignment of the same type through the iterator succeeds");
+  if (thrown) return;
+  verif_assert(same(elem, VX_SK, snull, si, sc, sl), "C06: a write through the forall iterator lands in the table element");
+  verif_assert(elem.lvalue(), "C05/C17/C09: a value written through the iterator is owned by the table (later uses copy it, never move it out)");
+  if (slval) verif_assert(same(src, VX_SK, snull, si, sc, sl) && src.lvalue(), "C05: an lvalue source is unchanged by the assignment");
+  verif_assert(ctx._storage_pool[0].value.type() == Type::POINTER, "C06: the iterator still points into the table");
+}
